@@ -1,0 +1,43 @@
+//go:build verif
+
+// Contracts for the deductive verifier under /verif (comment-only file).
+package rt
+
+// C10: Bitmap is the builder of the pointer bitmaps that become GC stack maps.
+// Abstract view: bit i (0 <= i < N) is bit (i%8) of byte i/8, the layout the runtime reads.
+//@ pure func bmBit(b *Bitmap, i int) bool = (b.B[i / 8] >> uint(i % 8)) & 1 != 0
+//@ pure func bmWF(b *Bitmap) bool = 0 <= b.N && b.N <= 8 * len(b.B) && len(b.B) < 1152921504606846976
+
+//@ func (*Bitmap).grow props C10 mode bv
+//@   requires self != nil && bmWF(self)
+//@   modifies self.B, self.B[_]
+//@   ensures bmWF(self) && self.N == old(self.N) && self.N < 8 * len(self.B)
+//@   ensures base(self.B) == old(base(self.B)) || fresh(self.B)
+//@   ensures forall i int :: (0 <= i && i < self.N) ==> bmBit(self, i) == old(bmBit(self, i))
+
+//@ func (*Bitmap).mark props C10 mode bv
+//@   requires self != nil && 0 <= i && i < 8 * len(self.B) && len(self.B) < 1152921504606846976
+//@   modifies self.B[_]
+//@   ensures bmBit(self, i) == (bv != 0)
+//@   ensures forall j int :: (0 <= j && j < 8 * len(self.B) && j != i) ==> bmBit(self, j) == old(bmBit(self, j))
+
+//@ func (*Bitmap).Set props C10 mode bv
+//@   requires self != nil && bmWF(self) && 0 <= i
+//@   modifies self.B[_]
+//@   panics_if i >= self.N
+//@   ensures bmWF(self) && self.N == old(self.N) && bmBit(self, i) == (bv != 0)
+//@   ensures forall j int :: (0 <= j && j < self.N && j != i) ==> bmBit(self, j) == old(bmBit(self, j))
+
+// Append: the bitmap grows by exactly one bit holding (bv != 0); every earlier bit keeps its value.
+//@ func (*Bitmap).Append props C10 mode bv
+//@   requires self != nil && bmWF(self)
+//@   modifies self.N, self.B, self.B[_]
+//@   ensures bmWF(self) && self.N == old(self.N) + 1 && bmBit(self, old(self.N)) == (bv != 0)
+//@   ensures forall j int :: (0 <= j && j < old(self.N)) ==> bmBit(self, j) == old(bmBit(self, j))
+
+// StackMapBuilder.AddField(ptr): one more word, marked as pointer iff ptr.
+//@ func (*StackMapBuilder).AddField props C10 mode bv
+//@   requires self != nil && bmWF(&self.b)
+//@   modifies self.b.N, self.b.B, self.b.B[_]
+//@   ensures bmWF(&self.b) && self.b.N == old(self.b.N) + 1 && bmBit(&self.b, old(self.b.N)) == ptr
+//@   ensures forall j int :: (0 <= j && j < old(self.b.N)) ==> bmBit(&self.b, j) == old(bmBit(&self.b, j))
